@@ -42,7 +42,9 @@ Proof.
         -- rewrite app_length. simpl in *. lia.
         -- intros _. assert (X : (j, v) :: q <> []) by discriminate. specialize (U X). rewrite app_length. simpl in *. lia.
     + destruct (lk && _); [discriminate|]. intros E; inversion E; subst. eapply invB_same; eauto.
-    + destruct (lk && _); [discriminate|]. intros E; inversion E; subst. eapply invB_same; eauto.
+    + intros E; inversion E; subst. eapply invB_same; eauto.
+    + intros E; inversion E; subst. eapply invB_same; eauto.
+    + intros E; inversion E; subst. eapply invB_same; eauto.
   - intros E; inversion E; subst. eapply invB_same; eauto.
   - destruct (cclosed (ch s)).
     + intros E; inversion E; subst. eapply invB_same; eauto.
@@ -64,8 +66,6 @@ Proof.
   - destruct (lk && _); [discriminate|]. intros E; inversion E; subst. eapply invB_same; eauto.
   - destruct (wclosed s); intros E; inversion E; subst; eapply invB_same; eauto.
   - destruct (cclosed (ch s)); intros E; inversion E; subst; [eapply invB_same; eauto|eapply invB_flag; eauto].
-  - intros E; inversion E; subst. eapply invB_same; eauto.
-  - intros E; inversion E; subst. eapply invB_same; eauto.
   - intros E; inversion E; subst. eapply invB_same; eauto.
 Qed.
 
